@@ -88,7 +88,7 @@ def check(run: Run) -> None:
             cn = cfg.node_of(c)
             before = cfg.dominates(cn, pn) and cn is not pn or (cn is pn and _inside(c, pushes[0]))
             # an argument visited in the same statement that creates the map, which precedes the push
-            run.check(cfg.dominates(cn, pn) and not _after(cfg, pn, cn), "C05.R3", vc, stmt_of(c), "argument resolved before the helper's parameter map is pushed", "an argument of the inlined call is resolved after the helper's parameter map has been pushed: a later argument that mentions the name of an earlier parameter is rewritten against the helper's bindings instead of the caller's (sub(10, a) -> 10 - 10)", "build the complete map first, then push it")
+            run.check(not _after(cfg, pn, cn) and (cn is not pn or _inside(c, pushes[0])), "C05.R3", vc, stmt_of(c), "argument resolved before the helper's parameter map is pushed", "an argument of the inlined call is resolved after the helper's parameter map has been pushed: a later argument that mentions the name of an earlier parameter is rewritten against the helper's bindings instead of the caller's (sub(10, a) -> 10 - 10)", "build the complete map first, then push it")
         if complete:
             key_t, val_t = mt[2][1][0], mt[2][1][1]
             ok_k = key_t[0] == "attr" and key_t[2] == "arg" and contains(key_t, lambda s: s == ("attr", ("attr", ("attr", nodep, "func"), "args"), "args"))
@@ -186,8 +186,18 @@ def _inside(a: ast.AST, b: ast.AST) -> bool:
 
 
 def _after(cfg, first, second) -> bool:
-    """`second` can execute after `first` has executed (first strictly precedes on some path)."""
-    return first is not second and cfg.dominates(first, second)
+    """`second` can execute after `first` has executed (some path leads from first to second)."""
+    seen = set()
+    st = [s for s, _ in first.succ]
+    while st:
+        x = st.pop()
+        if x is second:
+            return True
+        if id(x) in seen:
+            continue
+        seen.add(id(x))
+        st.extend(s for s, _ in x.succ)
+    return False
 
 
 def _same_index(key_t, val_t) -> bool:
